@@ -114,7 +114,17 @@ def conclude(pid, tier, seed, spec, results, machinery, wall):
             machinery.append(f"{r['scenario']}: vacuous run, witness '{w}' is zero")
         for v in r.get("violations", []):
             if v["property"] != pid:
-                # a scenario may serve several properties; only this property's clauses count here
+                # a scenario may serve several properties; a clause of another property counts in
+                # that property's own check - unless that check does not run this scenario at all:
+                # then nobody else would ever report it, and it is reported here, under its own id
+                other = CHECKS.get(v["property"], {})
+                served = any(r["scenario"] in part.get("scenarios", []) for part in other.get("parts", []))
+                if served:
+                    continue
+                ok = {k["signature"] for k in load_known() if k.get("property") == v["property"] and k.get("status", "known") == "known"}
+                if v["signature"] in ok:
+                    continue
+                new_violations.append((r, v))
                 continue
             if v["signature"] in known_open:
                 known_hits.append(v)
@@ -180,10 +190,10 @@ def conclude(pid, tier, seed, spec, results, machinery, wall):
         for r, v in new_violations:
             path = os.path.join(rdir, f"{sig_id(v['signature'])}.json")
             with open(path, "w") as f:
-                json.dump({"property": pid, "signature": v["signature"], "detail": v["detail"],
+                json.dump({"property": v.get("property", pid), "signature": v["signature"], "detail": v["detail"],
                            "count": v.get("count", 1), "engine": r["_engine"], "replay": v["replay"]}, f, indent=1)
             log(f"[check] {v['signature']} (x{v.get('count', 1)}): {v['detail']}")
-            print(f"VIOLATION property={pid} replay={path}", flush=True)
+            print(f"VIOLATION property={v.get('property', pid)} replay={path}", flush=True)
         rc = 1
     if machinery:
         for m in machinery:
